@@ -6,7 +6,7 @@ rational model `Sb.Poly` within a float error bound that is computed from the ma
 Root finding (degree ≤ 3): the implementation's answers are judged against the exact real-root oracle
 `Sb.Corr.Sturm`, with the acceptance rule documented at `rootTol`.
 -/
-import Sb.Corr.Sturm
+import Sb.Corr.CertOracle
 import Sb.Corr.UtilOps
 
 namespace Sb.Corr
@@ -151,9 +151,8 @@ structure RootCtx where
 
 def mkRootCtx (p : List Rat) (y : Rat) : RootCtx :=
   let q := Sturm.addP p [-y]
-  let eps : Rat := 1 / 1099511627776
-  { p := p, y := y, q := q, roots := Sturm.roots q eps,
-    crit := if Sturm.isZero (Sturm.deriv q) then [] else Sturm.roots (Sturm.deriv q) eps }
+  { p := p, y := y, q := q, roots := Cert.roots q,
+    crit := if Sturm.isZero (Sturm.deriv q) then [] else Cert.roots (Sturm.deriv q) }
 
 def RootCtx.scaleAt (c : RootCtx) (x : Rat) : Rat := absSum c.p x + absR c.y
 def RootCtx.small (c : RootCtx) (x : Rat) : Bool := absR (Sturm.eval c.q x) ≤ residTol * c.scaleAt x
@@ -276,12 +275,12 @@ def checkExtrema (p : List Rat) (ans : String) : Except String (List String) :=
           let pp := p.take cnt
           let tol := extTol * absSum pp 1 + tinyF
           if lo > hi then .error "extrema: min > max"
-          else if Sturm.reaches pp 0 1 (hi + tol) then
+          else if Cert.reaches pp 0 1 (hi + tol) then
             .error s!"extrema: polynomial exceeds the reported maximum {ratToString hi} on [0,1]"
-          else if Sturm.dipsTo pp 0 1 (lo - tol) then
+          else if Cert.dipsTo pp 0 1 (lo - tol) then
             .error s!"extrema: polynomial goes below the reported minimum {ratToString lo} on [0,1]"
-          else if !Sturm.reaches pp 0 1 (hi - tol) then .error s!"extrema: reported maximum {ratToString hi} is not attained on [0,1]"
-          else if !Sturm.dipsTo pp 0 1 (lo + tol) then .error s!"extrema: reported minimum {ratToString lo} is not attained on [0,1]"
+          else if !Cert.reaches pp 0 1 (hi - tol) then .error s!"extrema: reported maximum {ratToString hi} is not attained on [0,1]"
+          else if !Cert.dipsTo pp 0 1 (lo + tol) then .error s!"extrema: reported minimum {ratToString lo} is not attained on [0,1]"
           else .ok [s!"extrema:deg{cnt - 1}"]
       | _, _ => .error s!"extrema: non-finite bounds {ans}"
   | _ => .error s!"extrema: unparsable {ans}"
